@@ -80,14 +80,17 @@ impl Format for Recorder {
 }
 impl SampledFormat for Recorder {
     fn format_with_sample_rate(&mut self, entry: &impl Entry, _o: &mut impl std::io::Write, rate: f32) -> Result<(), IoStreamError> {
-        let g: Vec<String> = entry.sample_group().map(|(_, v)| v.to_string()).collect();
+        let g: Vec<String> = entry.sample_group().filter(|(k, _)| k != "Status").map(|(_, v)| v.to_string()).collect();
         self.0.lock().unwrap().push((g.join(","), rate));
         Ok(())
     }
 }
 
+/// A sample group is a SET of (key, value) pairs: the entry reports two pairs, in either order (`rev`); the group's
+/// identity, volume and rate must not depend on that order nor on `validate_groups` (C12-m8)
 struct GroupEntry {
     group: String,
+    rev: bool,
 }
 impl Entry for GroupEntry {
     fn write<'a>(&'a self, w: &mut impl EntryWriter<'a>) {
@@ -96,7 +99,9 @@ impl Entry for GroupEntry {
         w.value("One", &1u64);
     }
     fn sample_group(&self) -> impl Iterator<Item = (Cow<'static, str>, Cow<'static, str>)> {
-        [(Cow::Borrowed("Operation"), Cow::Owned(self.group.clone()))].into_iter()
+        let a = (Cow::Borrowed("Operation"), Cow::Owned(self.group.clone()));
+        let b = (Cow::Borrowed("Status"), Cow::Borrowed("ok"));
+        (if self.rev { [b, a] } else { [a, b] }).into_iter()
     }
 }
 
@@ -156,7 +161,7 @@ fn cmd_fixed(a: &HashMap<String, String>) {
                 rng.clear();
                 rng.push(w);
                 let before = rec.0.lock().unwrap().len();
-                let res = s.format(&GroupEntry { group: "g".into() }, &mut std::io::sink());
+                let res = s.format(&GroupEntry { group: "g".into(), rev: false }, &mut std::io::sink());
                 let calls = rec.0.lock().unwrap()[before..].to_vec();
                 rows.push(json!({
                     "word": w, "draw": draw_f32(w).to_bits(), "used": rng.len() == 0, "ok": res.is_ok(),
@@ -241,12 +246,18 @@ fn cmd_emf(a: &HashMap<String, String>) {
 // ---------------------------------------------------------------------------------------------
 fn cmd_congress(a: &HashMap<String, String>) {
     let mut out = out_file(a);
+    let mut case_no = 0u64;
     for c in util::read_ndjson(util::arg_str(a, "cases", "")) {
         let target = c["target"].as_u64().unwrap() as u32;
         let rng = Scripted::default();
         let rec = Recorder::default();
+        case_no += 1;
+        // group validation is a debugging aid (on by default in debug builds only): the sampler's decisions for valid
+        // groups are the same with and without it, so the cases alternate
+        let vg = case_no % 2 == 0;
         let r = util::catch(|| {
             let mut s = CongressSampleBuilder::default()
+                .validate_groups(vg)
                 .target_entries_per_interval(target)
                 .interval(Duration::from_secs(86_400))
                 .build_with_rng(rec.clone(), rng.clone());
@@ -255,7 +266,9 @@ fn cmd_congress(a: &HashMap<String, String>) {
             let rates_of = |s: &metrique_writer::sample::CongressSample<Recorder, Scripted>| -> HashMap<String, (f32, f32)> {
                 s.verif_rates()
                     .into_iter()
-                    .map(|(g, r, avg)| (g.iter().map(|(_, v)| v.clone()).collect::<Vec<_>>().join(","), (r, avg)))
+                    .map(|(g, r, avg)| {
+                        (g.iter().filter(|(k, _)| k != "Status").map(|(_, v)| v.clone()).collect::<Vec<_>>().join(","), (r, avg))
+                    })
                     .collect()
             };
             let mut steps = Vec::new();
@@ -282,7 +295,7 @@ fn cmd_congress(a: &HashMap<String, String>) {
                         rng.clear();
                         rng.push(word);
                         let before = rec.0.lock().unwrap().len();
-                        let res = s.format(&GroupEntry { group: name.clone() }, &mut std::io::sink());
+                        let res = s.format(&GroupEntry { group: name.clone(), rev: flip % 3 == 0 }, &mut std::io::sink());
                         let got = rec.0.lock().unwrap()[before..].to_vec();
                         // compact: [group, rate held for the group (before the call; for a group the sampler did not
                         // know yet: after the call), group was new, draw bits, draw taken, inner calls (-1: the
